@@ -10,7 +10,8 @@ def cfgs(tier):
 
 
 def transform(rng, prog):
-    return gen_prog.reuse_names(rng, prog)
+    prog = gen_prog.reuse_names(rng, prog)
+    return gen_prog.reuse_loop_vars(prog) if rng.random() < 0.3 else prog
 
 
 def run(res, b, tier, seed):
